@@ -185,11 +185,11 @@ class NonlinearForm(Form):
                 DFU = DF(tuple(JaxDiscreteField(*c.astuple)
                                for c in basis.basis[j]))
                 # Jacobian
-                ixs = slice(nt * (basis.Nbfun * j + i),
-                            nt * (basis.Nbfun * j + i + 1))
+                ixs = slice(nt * (basis.Nbfun * i + j),
+                            nt * (basis.Nbfun * i + j + 1))
                 rows[ixs] = basis.element_dofs[i]
                 cols[ixs] = basis.element_dofs[j]
-                data[j, i, :] = np.sum(DFU * dx, axis=1)
+                data[i, j, :] = np.sum(DFU * dx, axis=1)
             # rhs
             ixs1 = slice(nt * i, nt * (i + 1))
             rows1[ixs1] = basis.element_dofs[i]
